@@ -4,6 +4,7 @@ import (
 	"bytes"
 	"context"
 	"fmt"
+	"io"
 	"net/http"
 	"net/http/httptest"
 	"runtime/debug"
@@ -16,6 +17,8 @@ const ArrowCT = "application/vnd.apache.arrow.stream"
 
 // Resp is the outcome of one simulated HTTP request.
 type Resp struct {
+	// HungUp: the simulated peer went away before the whole body was written.
+	HungUp   bool
 	Status   int
 	Header   http.Header
 	Body     []byte // as sent on the wire (possibly compressed)
@@ -34,6 +37,32 @@ type Req struct {
 	NoCT    bool   // do not set Content-Type
 	Accept  string // Accept-Encoding
 	XAccept string // X-VGI-Accept-Encoding
+	// HangUpAfter > 0: the peer hangs up after that many body bytes have been
+	// written to it: the write that crosses the mark is partial and fails, later
+	// writes fail outright. Resp.Body then holds what crossed the wire.
+	HangUpAfter int
+}
+
+// cutWriter is a ResponseWriter whose peer goes away mid-body.
+type cutWriter struct {
+	*httptest.ResponseRecorder
+	left int
+	Cut  bool
+}
+
+func (c *cutWriter) Write(p []byte) (int, error) {
+	if c.left <= 0 {
+		c.Cut = true
+		return 0, io.ErrClosedPipe
+	}
+	if len(p) > c.left {
+		n, _ := c.ResponseRecorder.Write(p[:c.left])
+		c.left = 0
+		c.Cut = true
+		return n, io.ErrClosedPipe
+	}
+	c.left -= len(p)
+	return c.ResponseRecorder.Write(p)
 }
 
 // RequestContext, when set, supplies the context of every simulated request
@@ -67,6 +96,12 @@ func Do(h http.Handler, rq Req) (resp *Resp) {
 	}
 	w := httptest.NewRecorder()
 	resp = &Resp{}
+	var rw http.ResponseWriter = w
+	var cw *cutWriter
+	if rq.HangUpAfter > 0 {
+		cw = &cutWriter{ResponseRecorder: w, left: rq.HangUpAfter}
+		rw = cw
+	}
 	func() {
 		defer func() {
 			if rv := recover(); rv != nil {
@@ -74,8 +109,11 @@ func Do(h http.Handler, rq Req) (resp *Resp) {
 				resp.Stack = string(debug.Stack())
 			}
 		}()
-		h.ServeHTTP(w, r)
+		h.ServeHTTP(rw, r)
 	}()
+	if cw != nil {
+		resp.HungUp = cw.Cut
+	}
 	resp.Status = w.Code
 	resp.Header = w.Header().Clone()
 	resp.Body = w.Body.Bytes()
